@@ -240,3 +240,47 @@ Example executed_nonvacuous :
   0 < bigQ2rat lam /\
   all (fun v : seq bigQ => size v == 2%N) [:: [:: B1; lam]; [:: B0; B1]; [:: lam; lam]].
 Proof. split; [exact: q2r_gt0 | by []]. Qed.
+
+(* ---- which arm get_action returns (C19/ChoiceProofs.v): masked argmax of the action values ---- *)
+From AgileV Require Import C19.ChoiceProofs.
+
+(* any strict total order on action values: the returned arm is legal, no legal arm has a strictly larger value,
+   and every legal arm before it has a strictly smaller one (first maximum) *)
+Theorem masked_argmax_spec : forall (T : Type) (ltb : T -> T -> bool),
+  (forall a b c, ltb a b = true -> ltb b c = true -> ltb a c = true) ->
+  (forall a, ltb a a = false) ->
+  (forall a b c, ltb a c = true -> ltb a b = true \/ ltb b c = true) ->
+  forall (d : T) (vals : seq T) (legal : seq bool),
+  List.length vals = List.length legal ->
+  (exists j, (j < List.length vals)%coq_nat /\ List.nth j legal false = true) ->
+  let r := masked_argmax ltb vals legal in
+  (r < List.length vals)%coq_nat /\ List.nth r legal false = true /\
+  (forall j, (j < List.length vals)%coq_nat -> List.nth j legal false = true ->
+             ltb (List.nth r vals d) (List.nth j vals d) = false) /\
+  (forall j, (j < r)%coq_nat -> List.nth j legal false = true -> ltb (List.nth j vals d) (List.nth r vals d) = true).
+Proof. exact @masked_argmax_spec_lemma. Qed.
+Print Assumptions masked_argmax_spec.
+
+(* with every arm masked numpy (and the model) return arm 0 *)
+Theorem masked_argmax_all_masked : forall (T : Type) (ltb : T -> T -> bool),
+  (forall a b c, ltb a b = true -> ltb b c = true -> ltb a c = true) ->
+  (forall a, ltb a a = false) ->
+  (forall a b c, ltb a c = true -> ltb a b = true \/ ltb b c = true) ->
+  forall (d : T) (vals : seq T) (legal : seq bool),
+  List.length vals = List.length legal ->
+  (forall j, (j < List.length vals)%coq_nat -> List.nth j legal false = false) -> masked_argmax ltb vals legal = 0%N.
+Proof. exact @masked_argmax_none_lemma. Qed.
+Print Assumptions masked_argmax_all_masked.
+
+(* the instance K executes on the float action values (exact rationals) *)
+Theorem action_choice_spec : forall (vals : seq QArith_base.Q) (legal : seq bool),
+  List.length vals = List.length legal ->
+  (exists j, (j < List.length vals)%coq_nat /\ List.nth j legal false = true) ->
+  let r := Qmasked_argmax vals legal in
+  (r < List.length vals)%coq_nat /\ List.nth r legal false = true /\
+  (forall j, (j < List.length vals)%coq_nat -> List.nth j legal false = true ->
+             QArith_base.Qle (List.nth j vals (QArith_base.Qmake BinNums.Z0 BinNums.xH)) (List.nth r vals (QArith_base.Qmake BinNums.Z0 BinNums.xH))) /\
+  (forall j, (j < r)%coq_nat -> List.nth j legal false = true ->
+             QArith_base.Qlt (List.nth j vals (QArith_base.Qmake BinNums.Z0 BinNums.xH)) (List.nth r vals (QArith_base.Qmake BinNums.Z0 BinNums.xH))).
+Proof. exact Qmasked_argmax_spec_lemma. Qed.
+Print Assumptions action_choice_spec.
